@@ -375,6 +375,10 @@ func workC10Shared(w *run.W) {
 	cases = append(cases, cs{"shared-macro/nested-twice",
 		head + "GET /n1\n  404 any\n  500 @T\n  200 any\nPOST /n2\n  404 any\n  500 @T\n  200 any\n",
 		head + "MACRO @errs\n(\n  404 any\n  500 @T\n)\nMACRO @all\n(\n  PASTE @errs\n  200 any\n)\nGET /n1\n  PASTE @all\nPOST /n2\n  PASTE @all\n"})
+	// the name of the inner macro is the beginning of the name of the outer one (and the other way round)
+	cases = append(cases, cs{"shared-macro/names-that-contain-each-other",
+		head + "GET /n1\n  404 any\n  500 @T\n  200 any\nPOST /n2\n  404 any\n  500 @T\n  200 any\nPUT /n3\n  404 any\n  201 any\n",
+		head + "MACRO @errors\n(\n  404 any\n)\nMACRO @errors_all\n(\n  PASTE @errors\n  500 @T\n)\nMACRO @m1\n(\n  PASTE @m10\n  201 any\n)\nMACRO @m10\n(\n  404 any\n)\nGET /n1\n  PASTE @errors_all\n  200 any\nPOST /n2\n  PASTE @errors_all\n  200 any\nPUT /n3\n  PASTE @m1\n"})
 	// a nested PASTE whose last pasted directive takes the directives that follow it in the outer macro body as children
 	cases = append(cases, cs{"shared-macro/nested-paste-then-children",
 		head + "URL /h1\n  POST\n    Request any\n    201 any\nURL /h2\n  GET\n    Query\n    {\"q\": 1}\n    200 any\n",
